@@ -1430,6 +1430,9 @@ class Simulation:
 
         """
 
+        # Ensure misfit has been computed (and therefore the weights).
+        _ = self.misfit
+
         # Replace residual by provided vector
         # (division by weight is undone in gradient).
         with np.errstate(invalid='ignore'):  # (For division by cplx-NaN.)
